@@ -46,6 +46,21 @@ type c10Scenario struct {
 	SameFrameStart bool
 	// pause between frames in ms (default 2)
 	PaceMS int
+	// when the k-th, k+1-th and k+2-th frame arrive, the temporary names of the next
+	// 100 ms are already taken in the output directory (as another recorder sharing the
+	// directory would have taken them): StartRecording has to pick another name
+	TakenNamesAtFrame int
+}
+
+// takeNames creates empty files bearing the temporary recording names of the next ms milliseconds.
+func takeNames(dir string, ms int) {
+	now := time.Now()
+	for i := 0; i < ms; i++ {
+		n := now.Add(time.Duration(i)*time.Millisecond).Format("20060102.150405.000.") + cptvTempExt
+		if f, err := os.OpenFile(filepath.Join(dir, n), os.O_CREATE|os.O_EXCL|os.O_WRONLY, 0644); err == nil {
+			f.Close()
+		}
+	}
 }
 
 func c10Frames(cam pCamera, pattern string) []*pFrame {
@@ -104,6 +119,8 @@ func c10Scenarios() []c10Scenario {
 	c10.DeviceName = strings.Repeat("n", 300) // CPTV strings hold at most 255 bytes: writing the header fails
 	s10 := c10Scenario{Name: "S10", What: "every recording start fails while the header is written (device name too long for a CPTV field)", Cfg: c10, Cam: cam, Frames: c10Frames(cam, "ffffmmmmffff")}
 	out = append(out, s10)
+	s11 := c10Scenario{Name: "S11", What: "the file names of the next 100 ms are already taken when the motion recording starts (name collision, another name is picked)", Cfg: base(), Cam: cam, Frames: c10Frames(cam, "ffffmmmffffffffff"), TakenNamesAtFrame: 5}
+	out = append(out, s11)
 	c9 := base()
 	c9.Throttle, c9.BucketSize, c9.MinRefill = true, "3s", "200ms"
 	c9.MaxSecs = 30
@@ -269,6 +286,12 @@ func TestVerif_C10Child(t *testing.T) {
 	hook := func(n string) {
 		if n == "conn.frame.received" {
 			k := atomic.AddInt64(&framesRx, 1)
+			if sc.TakenNamesAtFrame > 0 && int(k) >= sc.TakenNamesAtFrame && int(k) < sc.TakenNamesAtFrame+3 {
+				fpMu.Lock()
+				dir := r.OutDir
+				fpMu.Unlock()
+				takeNames(dir, 100)
+			}
 			if sc.SnapAtFrame > 0 && int(k) == sc.SnapAtFrame+1 {
 				// the service path: a test recording is requested between frames
 				if err := newSnapshotRecording(); err != nil {
@@ -414,7 +437,7 @@ func TestVerif_C10(t *testing.T) {
 	defer c.Finish()
 	scratch := vEnv("VERIF_SCRATCH", t.TempDir())
 	scs := c10Scenarios()
-	quickSet := map[string]bool{"S1": true, "S3": true, "S4": true, "S5": true, "S6": true, "S8": true, "S10": true}
+	quickSet := map[string]bool{"S1": true, "S3": true, "S4": true, "S5": true, "S6": true, "S8": true, "S10": true, "S11": true}
 	for si, sc := range scs {
 		if !c.Thorough() && !quickSet[sc.Name] {
 			continue
